@@ -297,7 +297,7 @@ STR_POOL = [
 ]
 SMALL_STR_POOL = ["q", "x", "", "1"]
 INT_POOL = [0, 1, -1, 2, 7, 2**62, -(2**63), 10, 12]
-FLOAT_POOL = [0.5, 0.0, -0.0, 1.0, 1e300, 3.14, -2.5e-7, 1.0e16]
+FLOAT_POOL = [0.5, 0.0, 1.0, 1e300, 3.14, -2.5e-7, 1.0e16]
 BOOL_POOL = [True, False]
 OPTINT_POOL = [None, 0, 1, 5]
 PATH_POOL = ["a/b", "a", "/abs/x.txt", "a b/c"]
